@@ -32,6 +32,7 @@ import (
 	"github.com/hyperledger/aries-framework-go/component/kmscrypto/doc/util/kmsdidkey"
 	arieslog "github.com/hyperledger/aries-framework-go/component/log"
 	"github.com/hyperledger/aries-framework-go/component/models/did"
+	"github.com/hyperledger/aries-framework-go/component/models/jose/diddocresolver"
 	"github.com/hyperledger/aries-framework-go/component/models/jwt"
 	"github.com/hyperledger/aries-framework-go/component/models/jwt/didsignjwt"
 	"github.com/hyperledger/aries-framework-go/component/models/presexch"
@@ -46,6 +47,7 @@ import (
 	"github.com/hyperledger/aries-framework-go/pkg/didcomm/protocol/mediator"
 	"github.com/hyperledger/aries-framework-go/pkg/didcomm/protocol/messagepickup"
 	"github.com/hyperledger/aries-framework-go/pkg/didcomm/protocol/presentproof"
+	vdrapi "github.com/hyperledger/aries-framework-go/pkg/framework/aries/api/vdr"
 	mockdispatcher "github.com/hyperledger/aries-framework-go/pkg/mock/didcomm/dispatcher"
 	mockpackager "github.com/hyperledger/aries-framework-go/pkg/mock/didcomm/packager"
 	mockprovider "github.com/hyperledger/aries-framework-go/pkg/mock/provider"
@@ -616,16 +618,80 @@ func c03Claims(variant string, k, r int) string {
 	return c03Res(err)
 }
 
+// c03KeyReprMismatch: every verification method of the document once with the OTHER key representation than its type
+// announces (JsonWebKey2020 carrying publicKeyBase58, a base58 type carrying nothing but a type of JsonWebKey2020)
+func c03KeyReprMismatch(v interface{}, n *int, target int) {
+	switch t := v.(type) {
+	case map[string]interface{}:
+		_, hasJWK := t["publicKeyJwk"]
+		_, has58 := t["publicKeyBase58"]
+		_, hasMB := t["publicKeyMultibase"]
+		if hasJWK || has58 || hasMB {
+			if *n == target {
+				if hasJWK {
+					delete(t, "publicKeyJwk")
+					t["publicKeyBase58"] = "H3C2AVvLMv6gmMNam3uVAjZpfkcJCwDwnZn6z3wXmqPV"
+				} else {
+					t["type"] = "JsonWebKey2020"
+				}
+			}
+			*n++
+		}
+		for _, x := range t {
+			c03KeyReprMismatch(x, n, target)
+		}
+	case []interface{}:
+		for _, x := range t {
+			c03KeyReprMismatch(x, n, target)
+		}
+	}
+}
+
 func c03DID(variant string, k, r int) string {
 	seed, _ := strconv.Atoi(variant)
-	doc, _ := json.Marshal(c16DIDDoc(NewRng(uint64(seed))))
+	src := c16DIDDoc(NewRng(uint64(seed)))
+	if r%4 == 0 {
+		// (before the confusion) one verification method gets the key representation its type does not announce
+		b, _ := json.Marshal(src)
+		var m interface{}
+		if json.Unmarshal(b, &m) == nil {
+			n := 0
+			c03KeyReprMismatch(m, &n, -1) // count
+			if n > 0 {
+				total := n
+				n = 0
+				c03KeyReprMismatch(m, &n, k%total)
+				if mm, ok := m.(map[string]interface{}); ok {
+					src = mm
+				}
+			}
+		}
+	}
+	doc, _ := json.Marshal(src)
 	confused := c03JSON(doc, k, r)
+	if r%8 == 0 {
+		confused = doc // the mismatch alone
+	}
 	d, err := did.ParseDocument(confused)
 	if err == nil {
 		_, err = d.JSONBytes()
 		if err == nil {
 			_, err = service.CreateDestination(d)
 			err = nil // a document without service is not an error of the parser
+		}
+		// every key id the document offers, resolved the way the JWE packers resolve the kid / skid of an envelope
+		res := &diddocresolver.DIDDocResolver{VDRRegistry: &mockvdr.MockVDRegistry{
+			ResolveFunc: func(string, ...vdrapi.DIDMethodOption) (*did.DocResolution, error) {
+				return &did.DocResolution{DIDDocument: d}, nil
+			}}}
+		for _, list := range [][]did.Verification{d.KeyAgreement, d.Authentication, d.AssertionMethod} {
+			for i := range list {
+				id := list[i].VerificationMethod.ID
+				if !strings.Contains(id, "#") {
+					id = d.ID + "#" + id
+				}
+				_, _ = res.Resolve(id)
+			}
 		}
 	}
 	return c03Res(err)
